@@ -47,11 +47,19 @@ func NewIncreaseLevelCore(core Core, level LevelEnabler) (Core, error) {
 }
 
 func (c *levelFilterCore) Enabled(lvl Level) bool {
-	return c.level.Enabled(lvl)
+	// The filter can only narrow: the wrapped core may enable fewer levels
+	// than it did at construction (e.g. a dynamic level that was raised
+	// since), or may never have enabled an out-of-range level.
+	return c.level.Enabled(lvl) && c.core.Enabled(lvl)
 }
 
 func (c *levelFilterCore) Level() Level {
-	return LevelOf(c.level)
+	for lvl := _minLevel; lvl <= _maxLevel; lvl++ {
+		if c.Enabled(lvl) {
+			return lvl
+		}
+	}
+	return InvalidLevel
 }
 
 func (c *levelFilterCore) With(fields []Field) Core {
